@@ -280,10 +280,17 @@ func iteratorCloneCase(cs *fw.Case) {
 		}
 		ref = full[advance:]
 		cm := orig.v.MethodByName(cloneName)
-		if !cm.IsValid() {
-			cloneName = kind.Clones[0]
+		for _, alt := range kind.Clones {
+			if cm.IsValid() {
+				break
+			}
+			cloneName = alt
 			routine = typeName(cont) + "." + kind.Name + "." + cloneName
 			cm = orig.v.MethodByName(cloneName)
+		}
+		if !cm.IsValid() {
+			verdict = "skip:no-clone-method"
+			return
 		}
 		cl := newRIter(cm.Call(nil)[0].Interface())
 		if a, b := orig.pos(), cl.pos(); a != b {
